@@ -268,6 +268,7 @@ def run(ctx):
     ctx.rule("shell", "acceptance test `sintlH > sintlmin and sintlH <= sintlmax`")
     ctx.rule("insync", "InSync(hkl appended, sintlH) holds at every append on every path")
     ctx.rule("sort", "H = concatenate((H, stl), 1); H = H[argsort(H, 0)[:, 3], :]")
+    ctx.rule("expand", "genhkl_all expands every unique reflection over rot[:nuniq] and their negatives (union of the Laue families)")
     ctx.rule("unique", "genhkl_unique: genhkl_base(cell, spg.syscond, ..., spg attributes, output_stl=True); [:, :3] iff output_stl == False")
     Nbox = 4 if ctx.tier == "quick" else 10
     sgl = core.module("xfab/sglib.py")
@@ -439,6 +440,9 @@ def run(ctx):
                     m1 = core.match_stmt("return M_H[:, :3]", a_[0], {}, npa)
                     m2 = core.match_stmt("return M_H", b_[0], dict(m1) if m1 else {}, npa)
                     oks2 = bool(m1 and m2)
+        # genhkl_all is the union of the families: shared expansion rules (same as C05), reported under C06 keys
+        from props.c05 import analyse_expand
+        analyse_expand(ctx, mod, short, pid="C06")
         ctx.check(oks2, "C06:unique:%s:slice" % short, "the stl column is not removed exactly when output_stl == False", core.loc(mod, fu))
     ctx.not_decided += ["completeness of the walk for one real cell (see C05 early-exit findings)"]
     ctx.assumptions += ["C04 (first nuniq rotations are the point group)", "numpy argsort/concatenate"]
